@@ -465,11 +465,29 @@ def parameters(rep, idx, P, sig, icls):
                     alts.append([c.eng.cond(P2(f"self.{p} == other.{p}")), c.eng.cond(P2(f"Shape.cast(self.{p}) == Shape.cast(other.{p})"))])
                 ok = False
                 import itertools
-                for combo in itertools.product(*alts) if alts else [()]:
+                matched = None
+                for choice in itertools.product(*[range(len(a_)) for a_ in alts]) if alts else [()]:
+                    combo = [alts[i_][k_] for i_, k_ in enumerate(choice)]
                     want = dl.f_and(c.eng.cond(isinst), *combo)
                     if dl.equivalent(c.eng, found, want)[0]:
                         ok = True
+                        matched = choice
                         break
+                # a shape-like parameter compares by its *cast* shape (the property says "cast shapes"): either __eq__ casts both sides,
+                # or the constructor stores the cast shape, so that plain == already compares cast shapes
+                if ok and matched is not None:
+                    from .common import get_ctor
+                    for i_, p in enumerate(params):
+                        if p != "shape" or matched[i_] == 1:
+                            continue
+                        ct = get_ctor(idx, sig)
+                        st_ = ct.stores.get(f"self._{p}") or ct.stores.get(f"self.{p}")
+                        cast = st_ is not None and not st_[1] and st_[0] == ct.parse(f"Shape.cast({p})")
+                        rep.form(cast, "C20.4", eq.site, f"{sig.qual}: signatures whose `{p}` cast to the same Shape are equal",
+                                 f"__eq__ compares `{p}` with plain ==, and the constructor stores {ir.show(st_[0])[:80] if st_ else None}",
+                                 wrong=None if cast or st_ is None else
+                                 (f"`{p}` is stored as given (not always as Shape.cast({p})) and __eq__ does not cast either: an enumeration / layout "
+                                  "shape and the plain shape it casts to make unequal signatures although their members are identical"))
                 rep.check(ok, "C20.4", eq.site, f"{sig.qual}.__eq__ is true exactly when the class matches and {params} are all equal",
                           f"the method computes {dl.f_show(found)[:160]}")
             except Exception as e:
